@@ -203,6 +203,12 @@ impl Event {
 thread_local! {
     static LOG: RefCell<Vec<Event>> = RefCell::new(Vec::new());
     static TID: Cell<u32> = Cell::new(0);
+    static ENABLED: Cell<bool> = Cell::new(true);
+}
+
+/// switch history recording off/on for the calling thread (memory accounting runs)
+pub fn set_enabled(on: bool) {
+    ENABLED.with(|e| e.set(on));
 }
 
 pub fn set_thread(tid: u32) {
@@ -215,6 +221,9 @@ pub fn thread_id() -> u32 {
 /// record the call event before invoking; returns a token for `ret`
 #[inline]
 pub fn call(handle: u32, stream: u32, op: Op, arg: u64) -> usize {
+    if !ENABLED.with(|e| e.get()) {
+        return usize::MAX;
+    }
     let thread = thread_id();
     LOG.with(|l| {
         let mut l = l.borrow_mut();
@@ -238,6 +247,9 @@ pub fn call(handle: u32, stream: u32, op: Op, arg: u64) -> usize {
 /// record the return event after the reply
 #[inline]
 pub fn ret(tok: usize, res: Res, pos: u64) {
+    if tok == usize::MAX {
+        return;
+    }
     LOG.with(|l| {
         let mut l = l.borrow_mut();
         let t = tick();
@@ -249,6 +261,9 @@ pub fn ret(tok: usize, res: Res, pos: u64) {
 }
 
 pub fn ret_echo(tok: usize, res: Res, pos: u64, echo_ok: bool) {
+    if tok == usize::MAX {
+        return;
+    }
     LOG.with(|l| {
         let mut l = l.borrow_mut();
         let t = tick();
